@@ -131,10 +131,32 @@ def _chunk(task):
                 except Exception as ex:
                     res.append((f, f"{part}.evaluate_new_data({tag})", f"raise {type(ex).__name__}: {ex}"))
         formulae.config["EVAL_UNSEEN_CATEGORIES"] = "error"
+        # a second design of the same formula on a frame with other level sets, built before the first is inspected: the first design's
+        # containers still describe the first frame
+        try:
+            d2 = d[(d["f"] != "a") & (d["g"] != "u")].reset_index(drop=True)
+            design_matrices(f, d2)
+        except Exception:      # noqa: BLE001 - the reduced frame may not support the formula; the first design is what is judged
+            pass
         # all objects, including the training ones again after the evaluations
         for m, kind, n, what in objs + objs[:3]:
             err = check_matrix(m, kind, n, what)
             res.append((f, what, err or "ok"))
+        # rows: incomplete rows are removed by position - with repeated index labels too
+        if "x" in f:
+            try:
+                e = d.copy()
+                e.index = [i // 3 for i in range(len(e))]
+                dme = design_matrices(f, e)
+                for m, kind in ((dme.response, "response"), (dme.common, "common"), (dme.group, "group")):
+                    if m is not None:
+                        err = check_matrix(m, kind, nrows, f"{kind} (repeated index labels)")
+                        if err is None and kind != "group" and not np.array_equal(
+                                np.asarray(m.design_matrix, dtype=float), np.asarray(getattr(dm, kind).design_matrix, dtype=float), equal_nan=True):
+                            err = f"{kind} (repeated index labels): differs from the design on the default index"
+                        res.append((f, f"{kind} (repeated index labels)", err or "ok"))
+            except Exception as ex:
+                res.append((f, "repeated index labels", f"raise {type(ex).__name__}: {ex}"))
     return res
 
 
